@@ -4,10 +4,9 @@
 cd /verif
 J=3; [ "$1" = "-j" ] && J=$2
 ALL=C01,C02,C03,C04,C05,C06,C07,C08,C09,C10,C11,C12,C13,C14,C15,C16,C17,C18,C19,C20
-mkdir -p work/benign_logs
+rm -rf work/benign_logs; mkdir -p work/benign_logs
 ls benign | while read d; do grep -q '"disposition"' benign/$d/meta.json || echo $d; done | xargs -P $J -I{} sh -c "python3 tools/eval_seed.py BENIGN benign/{} --skip-suite --skip-demo --checks $ALL --tier quick > work/benign_logs/{}.log 2>&1"
 bad=0
-rm -f work/benign_logs/B_1.log 2>/dev/null
 for f in work/benign_logs/*.log; do
   n=$(grep -c "^check" $f); x=$(grep "^check" $f | grep -v "rc=0 fired=False" | awk '{print $2}' | tr '\n' ',')
   echo "$(basename $f .log) checks=$n not-silent=[$x]"; [ -n "$x" ] && bad=1; [ "$n" = 20 ] || bad=1
